@@ -49,6 +49,11 @@ CONSTANTS Comps,        \* component names
           UpProgs,      \* explored programs of the Up handler
           CRProg,       \* [on, p]: program p run by a ComponentRegistered handler when
                         \* component `on` is first registered ("none": no such handler)
+          LAs,          \* [Waiters -> set of listen_args a sink's declaration may give]: a
+                        \* listen_args is a set of entries [c, p, w]: for component c (or "*":
+                        \* the None key = every component) priority class p ("hi"/"mid"/"lo",
+                        \* "-" = not given) and weak w ("y"/"n", "-" = not given)
+          DropOn,       \* whether the caller dropping its reference to a sink is explored
           QuitOn,       \* whether quit() is explored in this configuration
           QuitDeferred, \* whether quit() is explored while going up is still deferred
           DefCap,       \* how many deferrals are obtained from outside handlers after goUp()
@@ -95,6 +100,8 @@ VARIABLES comps,    \* registered component names
           coll,     \* [Colls -> SUBSET Comps]: what each caller-owned collection holds now
           wired,    \* {<<sink, c>>}: an event raised by component c reaches the sink's handler
           attrs,    \* {<<sink, c>>}: sink._c_ has been set
+          wla,      \* [Waiters -> listen_args]: the options a sink was declared with
+          dropped,  \* sinks the caller no longer holds a reference to
           crdone,   \* the ComponentRegistered handler's program has run
           life,     \* sequence of lifecycle events raised so far
           defs,     \* owners of the outstanding deferrals (Up waits for them)
@@ -103,7 +110,8 @@ VARIABLES comps,    \* registered component names
           last,     \* observation of the last action
           hist      \* all observations (export only; hidden by VIEW)
 nocoll == <<comps, wst, wdeps, wform, wired, attrs, crdone>>
-rvars == <<nocoll, coll>>
+opts  == <<wla, dropped>>
+rvars == <<nocoll, coll, opts>>
 lvars == <<life, defs, handed, upprog>>
 vars  == <<rvars, lvars, last, hist>>
 view  == <<rvars, lvars, last>>
@@ -123,6 +131,7 @@ Init == /\ comps = {} /\ wst = [w \in Waiters |-> "new"]
         /\ wform = [w \in Waiters |-> "-"]
         /\ coll = [k \in Colls |-> {}]
         /\ wired = {} /\ attrs = {} /\ crdone = FALSE
+        /\ wla = [w \in Waiters |-> {}] /\ dropped = {}
         /\ life = <<>> /\ defs = {} /\ handed = {} /\ upprog = <<>>
         /\ last = NoObs /\ hist = <<>>
 
@@ -208,15 +217,44 @@ UpStep(X, up) ==
 
 NoLog(x) == [x EXCEPT !.lg = <<>>]
 
-Commit(a, args, outs) ==
+\* ---- listener options (listen_args of listen_to_dependencies).  The listeners
+\* of a sink on component c are subscribed with the options given for c: the
+\* entry for c itself, what it leaves out taken from the entry for every
+\* component ("*"), what that leaves out being the default (priority 0 = "mid",
+\* a strong subscription).  Nothing given for one component says anything
+\* about another.
+LA(c, p, w) == [c |-> c, p |-> p, w |-> w]
+OptOf(la, c, fld, dflt) ==
+  LET own == {e \in la : e.c = c /\ e[fld] # "-"}
+      all == {e \in la : e.c = "*" /\ e[fld] # "-"}
+  IN IF own # {} THEN (CHOOSE e \in own : TRUE)[fld]
+     ELSE IF all # {} THEN (CHOOSE e \in all : TRUE)[fld] ELSE dflt
+EffP(la, c) == OptOf(la, c, "p", "mid")
+EffW(la, c) == OptOf(la, c, "w", "n")
+\* A sink the caller dropped lives on while core still waits for its components
+\* and, afterwards, as long as one of its subscriptions is a strong one; once it
+\* is gone so are its (then all weak) subscriptions.
+AliveIn(s, st, wr, la, nd) ==
+  \/ s \notin nd \/ st[s] = "pending"
+  \/ \E c \in Comps : <<s, c>> \in wr /\ EffW(la[s], c) = "n"
+\* what can be observed of the wiring: an event raised by c reaches the sink's
+\* handler, before ("hi") / between ("mid") / after ("lo") two reference
+\* listeners of known priority on c
+WiredObs(st, wr, la, nd) ==
+  {<<q[1], q[2], EffP(la[q[1]], q[2])>> : q \in {r \in wr : AliveIn(r[1], st, wr, la, nd)}}
+
+CommitX(a, args, outs, nla, nd) ==
   LET fin == CHOOSE o \in outs : TRUE IN
   /\ Assert(\A o \in outs : NoLog(o) = NoLog(fin), "confluence")
   /\ Assert(~fin.crp, "ComponentRegistered program left over")
   /\ comps' = fin.c /\ wst' = fin.st /\ wdeps' = fin.dp /\ wform' = fin.fm
   /\ wired' = fin.wr /\ attrs' = fin.at /\ crdone' = fin.crd
   /\ life' = fin.lf /\ defs' = fin.df /\ handed' = fin.hd
+  /\ wla' = nla /\ dropped' = nd
   /\ Log(a, args, [logs |-> {o.lg : o \in outs}, comps |-> fin.c,
-                   wired |-> fin.wr, attrs |-> fin.at])
+                   wired |-> WiredObs(fin.st, fin.wr, nla, nd),
+                   attrs |-> {q \in fin.at : q[1] \notin nd}])
+Commit(a, args, outs) == CommitX(a, args, outs, wla, dropped)
 
 ----------------------------------------------------------------------------
 (* Rendezvous operations                                                     *)
@@ -236,11 +274,21 @@ CallWhenReady(w, d, f) ==
   /\ UNCHANGED <<upprog, coll>>
 
 \* dependencies = components named by the sink's handlers + explicit ones
-ListenTo(s, e, f) ==
+\* la = the listen_args given (options for the listeners wired later)
+ListenTo(s, e, f, la) ==
   /\ Kind[s] = "sink" /\ wst[s] = "new" /\ FormOK(f, e)
-  /\ Commit("ListenTo", [w |-> s, deps |-> e, f |-> f],
-            Settle([Base EXCEPT !.st[s] = "pending", !.dp[s] = Handles[s] \cup e,
-                                !.fm[s] = f]))
+  /\ CommitX("ListenTo", [w |-> s, deps |-> e, f |-> f, la |-> la],
+             Settle([Base EXCEPT !.st[s] = "pending", !.dp[s] = Handles[s] \cup e,
+                                 !.fm[s] = f]),
+             [wla EXCEPT ![s] = la], dropped)
+  /\ UNCHANGED <<upprog, coll>>
+
+\* the caller drops its last reference to a sink it has declared.  No call into
+\* core is made: nothing fires; what remains wired is what strong subscriptions
+\* (or core's pending entry) keep alive.
+Drop(s) ==
+  /\ DropOn /\ Kind[s] = "sink" /\ wst[s] # "new" /\ s \notin dropped
+  /\ CommitX("Drop", [w |-> s], {Base}, wla, dropped \cup {s})
   /\ UNCHANGED <<upprog, coll>>
 
 \* the caller changes a collection of its own (o = "add" / "del" of name c) -
@@ -304,11 +352,14 @@ Quit(re) ==
                  {[Base EXCEPT !.lf = @ \o <<"GoingDown", "Down">>,
                                !.lg = <<Life_("GoingDown", comps), Life_("Down", comps)>>]})
 
+\* non-trivial listen_args are explored with at most one explicit component
+LASel(s, e) == IF Cardinality(e) <= 1 THEN LAs[s] ELSE {{}}
 Next == \/ \E c \in Comps : Register(c)
         \/ \E w \in Waiters, d \in DepSets, f \in Forms : CallWhenReady(w, d, f)
         \/ \E w \in Waiters, k \in Colls : CallWhenReady(w, coll[k], k)
-        \/ \E s \in Waiters, e \in DepSets, f \in Forms : ListenTo(s, e, f)
-        \/ \E s \in Waiters, k \in Colls : ListenTo(s, coll[k], k)
+        \/ \E s \in Waiters, e \in DepSets, f \in Forms : \E la \in LASel(s, e) : ListenTo(s, e, f, la)
+        \/ \E s \in Waiters, k \in Colls : \E la \in LASel(s, coll[k]) : ListenTo(s, coll[k], k, la)
+        \/ \E s \in Waiters : Drop(s)
         \/ \E k \in Colls, o \in {"add", "del"}, c \in Comps : Mutate(k, o, c)
         \/ \E hs \in HandlerSeqs, up \in UpProgs : GoUp(hs, up)
         \/ GetDeferral
@@ -329,6 +380,10 @@ TypeOK == /\ comps \subseteq Comps
           /\ wform \in [Waiters -> {"-", "fresh", "once"} \cup Colls]
           /\ \A w \in Waiters : (wform[w] = "-") = (wst[w] # "pending")
           /\ coll \in [Colls -> SUBSET Comps]
+          /\ dropped \subseteq {w \in Waiters : Kind[w] = "sink" /\ wst[w] # "new"}
+          /\ \A w \in Waiters : \A e \in wla[w] : e.c \in Comps \cup {"*"}
+                 /\ e.p \in {"hi", "mid", "lo", "-"} /\ e.w \in {"y", "n", "-"}
+          /\ \A w \in Waiters : wla[w] # {} => (Kind[w] = "sink" /\ wst[w] # "new")
           /\ wired \subseteq (Waiters \X Comps) /\ attrs \subseteq (Waiters \X Comps)
           /\ crdone \in BOOLEAN
           /\ defs \subseteq handed /\ handed \subseteq Owners
@@ -399,6 +454,30 @@ DepsFixed ==
      /\ \A k \in Colls : coll'[k] # coll[k] => (last'.a = "Mutate" /\ last'.args.f = k)
      /\ last'.a = "Mutate" => (nocoll' = nocoll /\ lvars' = lvars /\ Logs = {<<>>})]_vars
 
+\* the options a sink's listeners get are those given when it was declared, for
+\* each component its own: they never change afterwards, a dropped sink stays
+\* dropped, and what a call shows of the wiring (last.exp.wired) is, for every
+\* sink that is still alive, each of its listeners at the place its OWN
+\* component's priority puts it - whatever was given for other components
+OptsFixed ==
+  [][/\ \A w \in Waiters : wst[w] # "new" => wla'[w] = wla[w]
+     /\ dropped \subseteq dropped'
+     /\ (dropped' # dropped => last'.a = "Drop" /\ nocoll' = nocoll /\ lvars' = lvars)]_vars
+OwnOpt(la, c, fld) == {e[fld] : e \in {x \in la : x.c = c /\ x[fld] # "-"}}
+OptsOK ==
+  "wired" \in DOMAIN last.exp =>
+    /\ \A t \in last.exp.wired :
+         /\ <<t[1], t[2]>> \in wired
+         /\ OwnOpt(wla[t[1]], t[2], "p") # {} => t[3] \in OwnOpt(wla[t[1]], t[2], "p")
+         /\ (OwnOpt(wla[t[1]], t[2], "p") = {} /\ OwnOpt(wla[t[1]], "*", "p") = {}) => t[3] = "mid"
+    /\ \A q \in wired :
+         (\E t \in last.exp.wired : t[1] = q[1] /\ t[2] = q[2])
+           <=> (\/ q[1] \notin dropped \/ wst[q[1]] = "pending"
+                \/ \E r \in wired : r[1] = q[1] /\
+                      LET o == OwnOpt(wla[q[1]], r[2], "w") \cup
+                               (IF OwnOpt(wla[q[1]], r[2], "w") = {} THEN OwnOpt(wla[q[1]], "*", "w") ELSE {})
+                      IN "y" \notin o)
+
 \* the lifecycle events a call raises are exactly those appended to life:
 \* GoingUp once, Up exactly once, whatever the handlers do re-entrantly
 LifeLogged ==
@@ -419,7 +498,8 @@ CROnce ==
 
 \* ---- export for the replay harness
 Catalog == [comps |-> Comps, sources |-> Sources, kind |-> Kind, script |-> Script,
-            handles |-> Handles, cr |-> CRProg, forms |-> Forms, colls |-> Colls]
+            handles |-> Handles, cr |-> CRProg, forms |-> Forms, colls |-> Colls,
+            drop |-> DropOn]
 Bound   == Len(hist) <= D
 Export  == (Len(hist) = D) => PrintT(<<"H", ToJson(hist)>>)
 ExportT == PrintT(<<"T", ToJson(hist')>>)
